@@ -160,7 +160,7 @@ def mk_axldown(dw_from, dw_to, aw, pol=None, master="single", small=None, p_err=
     amax = (1 << aw) - 1
     fullw = (1 << dw_from) - 1
     if small in ("w", "w6"):
-        strbs = tuple(range(1 << nbf)) if small == "w" else (0, 1, 2, 8, 10, 15)
+        strbs = tuple(range(1 << nbf)) if small == "w" else (0, 1, 8, 15)
         dom = {"m.awaddr": (0, amax), "m.wdata": (0xA5C3 & fullw,), "m.wstrb": strbs,
                "m.arvalid": (0,), "m.araddr": (0,), "m.rready": (0,),
                "s.arready": (0,), "s.rvalid": (0,), "s.rresp": (0,), "s.rdata": (0,), "s.bresp": (0, 2)}
@@ -272,6 +272,8 @@ def mk_ahb2wb(dw, aw, addressing="word", pol=None, small=False, p_err=0.0, tag="
     if small:
         dom = {"haddr": tuple(range(nb)) + ((1 << aw) - 1,), "hsize": (0, 1, 2, 3),
                "htrans": (2, 3), "hwdata": ((1 << dw) - 2,), "datr": ((1 << dw) - 3,)}
+        if small == "q":
+            dom.update(haddr=tuple(range(nb)), htrans=(2,))
     return PortInst(name, m, "ahb2wb %d %d" % (lg, shift), "ahb", hb, "wb", wb, dom=dom, env=env, monitor=mon)
 
 
@@ -394,7 +396,8 @@ def jobs(tier):
     B(lambda: mk_axl2wb(32, 32, base=0x2000, tag="/garbage"))
     # ---- AXILiteSRAM / AXILite2CSR (axi_lite_to_simple)
     A(lambda: mk_axlsram(8, 1, 2, small=True))
-    A(lambda: mk_axlsram(16, 3, 2, small=True))
+    if not quick:
+        A(lambda: mk_axlsram(16, 3, 2, small=True))
     A(lambda: mk_axlsram(8, 2, 2, read_only=True, small=True))
     A(lambda: mk_axl2csr(8, 2, csr_aw=1, small=True))
     for ms in ("single", "pipelined", "w-first", "aw-first", "busy", "lazy"):
@@ -442,7 +445,7 @@ def jobs(tier):
     B(lambda: mk_axl2axi(32, 32))
     # ---- AHB2Wishbone
     A(lambda: mk_ahb2wb(32, 3, small=True))
-    A(lambda: mk_ahb2wb(64, 4, small=True))
+    A(lambda: mk_ahb2wb(64, 4, small="q" if quick else True))
     for pol in WB_POL:
         B(lambda pol=pol: mk_ahb2wb(32, 32, pol=pol))
     B(lambda: mk_ahb2wb(64, 32, pol="mixed"))
@@ -462,7 +465,8 @@ def jobs(tier):
         B(lambda g=g: mk_adapter(*g))
     # ---- Wishbone2AXILite
     A(lambda: mk_wb2axl(8, 2, base=4, small=True))
-    A(lambda: mk_wb2axl(16, 3, base=2, small=True))
+    if not quick:
+        A(lambda: mk_wb2axl(16, 3, base=2, small=True))
     for pol in AXL_POL:
         B(lambda pol=pol: mk_wb2axl(32, 32, base=0x1000, pol=pol, p_err=0.1))
     B(lambda: mk_wb2axl(64, 32, base=0x1000, pol="pipeline2", p_err=0.1))
